@@ -21,7 +21,7 @@ import (
 
 type linOp struct {
 	g          int
-	kind       string // add rm has card slice clear union inter diff eq sub
+	kind       string // add rm has card slice clear union inter diff eq sub sup sym clone iter str pow cart
 	s, t       int    // set index, second operand
 	v          int
 	res        string
@@ -89,8 +89,29 @@ func seqApply(st [2]uint8, o linOp) ([2]uint8, string) {
 			return st, "1"
 		}
 		return st, "0"
+	case "sup":
+		if b&^a == 0 {
+			return st, "1"
+		}
+		return st, "0"
+	case "sym":
+		return st, maskStr(a ^ b)
+	case "clone", "iter", "str":
+		return st, maskStr(a)
+	case "pow":
+		return st, strconv.Itoa(1 << uint(popcount(a)))
+	case "cart":
+		return st, strconv.Itoa(popcount(a) * popcount(b))
 	}
 	return st, "?"
+}
+
+func popcount(m uint8) int {
+	n := 0
+	for v := 0; v < 4; v++ {
+		n += int(m >> uint(v) & 1)
+	}
+	return n
 }
 
 func setMaskStr(s mapset.Set) string {
@@ -130,6 +151,34 @@ func runRealOp(sets [2]mapset.Set, o *linOp) {
 		o.res = b2s(a.Equal(b))
 	case "sub":
 		o.res = b2s(a.IsSubset(b))
+	case "sup":
+		o.res = b2s(a.IsSuperset(b))
+	case "sym":
+		o.res = setMaskStr(a.SymmetricDifference(b))
+	case "clone":
+		o.res = setMaskStr(a.Clone())
+	case "iter":
+		var m uint8
+		for e := range a.Iter() {
+			if v, ok := e.(int); ok && v >= 0 && v < 4 {
+				m |= 1 << uint(v)
+			}
+		}
+		o.res = maskStr(m)
+	case "str":
+		// the printed form lists the members; read them back
+		var m uint8
+		txt := a.String()
+		for v := 0; v < 4; v++ {
+			if strings.Contains(txt, strconv.Itoa(v)) {
+				m |= 1 << uint(v)
+			}
+		}
+		o.res = maskStr(m)
+	case "pow":
+		o.res = strconv.Itoa(a.PowerSet().Cardinality())
+	case "cart":
+		o.res = strconv.Itoa(a.CartesianProduct(b).Cardinality())
 	}
 }
 
@@ -175,7 +224,9 @@ func linearizable(init [2]uint8, ops []linOp) bool {
 	return rec(0, init)
 }
 
-var linKinds = []string{"add", "add", "add", "rm", "rm", "has", "has", "card", "slice", "clear", "union", "inter", "diff", "eq", "sub"}
+// all 18 operations of the interface (writers weighted up)
+var linKinds = []string{"add", "add", "add", "add", "rm", "rm", "rm", "has", "has", "card", "slice", "clear", "union", "inter", "diff", "eq", "sub",
+	"sup", "sym", "sym", "clone", "iter", "str", "pow", "cart"}
 
 func linHistories(ps *propSink, count int, seed int64) string {
 	rng := rand.New(rand.NewSource(seed))
